@@ -5,16 +5,19 @@
     item lists - hence for every operation of every driver model, every buffer content, every busy
     behaviour - and EVERY failure index k.  For the 12.48in driver the analogous theorem is
     [C15_fail_stop] (Properties/C15.v).
-    (b) recovery: PARTIAL.  What is proved: a failed call returns the error and nothing else
-    ([C04_call_result]); the model leaves the driver's fields at the value of the last field
-    assignment that preceded the failing transfer (by definition of [Hal.expand_items], tied to the
-    code by the fault correspondence, which runs calls AFTER each failure); and wake_up begins with a hardware reset that returns the controller model to its power-on state
-    whatever state the truncated call left it in ([C04_reset_forgets_controller_state]); from there the
-    history theorems (C02, C08, C09) apply to the recovery suffix.  The end-to-end comparison "same
-    memory and power state as a driver that never failed" is decided at run time on the real crate
-    (recovery suffix of every fault case compared with a never-failed driver), not by a theorem. *)
+    (b) recovery, on the models: for each of the 30 configurations, for EVERY state of the closed
+    reachable set (hence after every history), every macro step that changes no setting, and EVERY
+    field valuation a call of that step can be interrupted in (before the call or after any of its
+    field assignments): wake_up begins with a hardware reset, so by [C04_recovery_forgets] the
+    controller ends in the same state whatever the truncated call left behind, and
+    [wake_up; update_frame; display_frame] ends with the same addressing / power registers, the same
+    image burst and the same refresh as on the driver that never made the failing call
+    ([C04_recovery]).  Macro steps that change a setting (set_lut, set_refresh, set_background_color,
+    set_border_color) are excluded: a failed setting change may or may not have taken effect, so there
+    is no unique never-failed reference.  PARTIAL in this sense: the 12.48in driver's recovery is
+    [C15_recovery_after_error]; and the same comparison is made at run time on the real crate. *)
 From Coq Require Import List NArith Bool.
-From EPD Require Import Iface Ops Hal HalSat HalProofs Run Ctl.Ctl.
+From EPD Require Import Iface Ops Hal HalSat HalProofs Run Ctl.Ctl Panels Spec.PSpec Spec.Specs Spec.Verdict Spec.Recover Proof.AllPanels Proof.Recovery.
 Import ListNotations.
 Open Scope N_scope.
 
@@ -60,6 +63,25 @@ Qed.
 Theorem C04_reset_forgets_controller_state : forall p s a b, fst (cstep p s (IReset a b)) = por p.
 Proof. intros p s a b. cbn [cstep]. destruct (close p s). reflexivity. Qed.
 
+(** If wake_up begins with a hardware reset (possibly after busy waits), the driver fields, the controller
+    state and the image effects after [wake_up; update_frame; display_frame] are the same from EVERY
+    controller state the failed call may have left behind. *)
+Theorem C04_recovery_forgets : forall D PP d c c' r r',
+  suffix D PP d c = Some r -> suffix D PP d c' = Some r' -> snd r = true ->
+  fst (fst (fst r)) = fst (fst (fst r')) /\ snd (fst (fst r)) = snd (fst (fst r')) /\ snd (fst r) = snd (fst r').
+Proof. exact suffix_forgets. Qed.
+
+(** Recovery after a failure at any point of any call of any non-setting macro step, in any reachable
+    state: [pair_ok (d, v_d s)] = the suffix from the interrupted fields [d] and from the never-failed
+    fields [v_d s] both succeed, both begin with a reset, and end with equal addressing / power
+    registers ([Checks.reg_diff] empty, same pending flag) and equal image bursts and refreshes. *)
+Theorem C04_recovery : forall c, In c cfgs ->
+  forall s m d, In s (Rof c) -> In m (ps_alpha (spec_of (snd c))) -> existsb is_setting m = false ->
+  In d (macro_fields (iD (fst c) (spec_of (snd c))) (iPP (fst c) (spec_of (snd c))) (iisig (fst c) (spec_of (snd c)))
+                     (ilr (fst c) (spec_of (snd c)) 0) (ilr (fst c) (spec_of (snd c)) 1) s m) ->
+  pair_ok (iD (fst c) (spec_of (snd c))) (iPP (fst c) (spec_of (snd c))) (d, v_d s) = true.
+Proof. exact recovery_spec. Qed.
+
 (** non-vacuity: a concrete call with its second transfer failing stops there *)
 Example C04_witness :
   match expand (mkCfg true 0) (fun _ _ _ => 0) [ICall (ICmd 1); ICall (IData (DLit [2; 3])); ICall (ICmd 4)]
@@ -72,3 +94,5 @@ Print Assumptions C04_fail_stop.
 Print Assumptions C04_new_fails_without_driver.
 Print Assumptions C04_call_result.
 Print Assumptions C04_reset_forgets_controller_state.
+Print Assumptions C04_recovery_forgets.
+Print Assumptions C04_recovery.
